@@ -159,7 +159,7 @@ fn powi_for<T: Fx>(r: &mut Rec, rng: &mut StdRng, scale: usize) {
     for (i, x) in bases.iter().enumerate() {
         for (j, e) in exps.iter().enumerate() {
             // quick: small exponents for every base, the others thinned out
-            if quick && !(j < 12 && (i + j) % 2 == 0) && (i + 2 * j) % 7 != 0 {
+            if quick && !(j < 12 && (i + j) % 3 == 0) && (i + 2 * j) % 11 != 0 {
                 continue;
             }
             powi(r, *x, *e);
